@@ -211,18 +211,24 @@ def r2_to_r5(prog, ev, rep, conv):
     # R3: escaping chain on the name
     chain = []
     x = arg
-    while x.k == "call" and len(x.a) >= 2:
-        chain.append(x)
-        x = x.a[1]
+    for _ in range(40):
+        if x.k == "call" and x.a[0] in prog.bodies and prog.items[x.a[0]]["kind"] in ("Fn", "AssocFn"):
+            x = ev.apply(Tm("fnitem", (x.a[0],)), list(x.a[1:]))      # a local escaping helper: look at what it computes
+            continue
+        if x.k == "call" and len(x.a) >= 2:
+            chain.append(x)
+            x = x.a[1]
+            continue
+        break
     reps = [(y.a[2].a[1] if y.a[2].k == "lit" else None, y.a[3].a[1] if y.a[3].k == "lit" else None)
             for y in reversed(chain) if y.a[0].endswith("<impl str>::replace") and len(y.a) == 4]
     escaped = reps[:2] == [("~", "~0"), ("/", "~1")]
-    local_esc = [y for y in chain if y.a[0] in prog.bodies]
-    if local_esc and not escaped:
-        for y in local_esc:
-            lits = {z.a[1] for z in subterms(ev.summary(y.a[0])) if z.k == "lit"}
-            if {"~0", "~1"} <= lits:
-                escaped = True
+    from rules import c01
+    for (p1, r1), (p2, r2) in zip(reps, reps[1:]):
+        if r1 is not None and p2 is not None and p1 != r1 and c01._overlap(str(r1), str(p2)):
+            rep.bad("C09-R3", "%s|escape-order" % shared.rk(prog, ev, conv), c.loc(),
+                    "the escaping steps run in the wrong order: `.replace(%r, %r)` produces text that the following `.replace(%r, ..)` "
+                    "rewrites again (`/` becomes `~01`): RFC 6901 escapes `~` first, then `/`" % (p1, r1, p2))
     rep.check(escaped, "C09-R3", "%s|name-unescaped" % shared.rk(prog, ev, conv), c.loc(), "name escaped as a JSON-Pointer token",
               "the member name is written after `/` without escaping `~` and `/` (chain: %s): member `a/b` is looked up as `a` then `b`" % [y.a[0].rsplit("::", 1)[1] for y in chain])
     # R4: decoding
@@ -249,6 +255,21 @@ def r2_to_r5(prog, ev, rep, conv):
             stripped.append("ws")
     suffix = ("{%s}" % ",".join(stripped)) if stripped else ""
     rep.check(not prob, "C09-R4", "%s|name-decoding%s" % (shared.rk(prog, ev, conv), suffix), c.loc(), "decoded name", "; ".join(prob))
+    # R7: whatever the path printer does to a member name, the converter must undo
+    from rules import c03
+    rep.rule("C09-R7", "writer/reader agreement on member names: the converter decodes escapes if and only if the path printer "
+             "(Pointer::key) writes them - a printer that escapes names while the converter copies them verbatim (or the reverse) "
+             "breaks reference() for exactly the paths queries return", floor=1)
+    verb = c03.name_step_is_verbatim(prog, ev)
+    if verb is None:
+        rep.unrecognised("C09-R7", "printer", "-", "the name-step formatter of Pointer::key was not recognised")
+    else:
+        agree = (verb and not decodes) or ((not verb) and decodes)
+        rep.check(agree, "C09-R7", "printer-vs-converter", c.loc(),
+                  "printer writes names %s, converter %s" % ("verbatim" if verb else "through an escaping function", "decodes escapes" if decodes else "copies them verbatim"),
+                  "the path printer writes member names %s but the converter %s: a path returned by a query no longer leads reference() "
+                  "to its node when the name contains a character the printer escapes" % (
+                      "verbatim" if verb else "through an escaping function", "decodes escapes" if decodes else "copies them verbatim"))
     # R5: kind-blind lookup
     lookup_blind = True   # serde_json::Value::pointer resolves a token against whatever container is there (RFC 6901)
     same_render = tpl == tpl_i
